@@ -19,6 +19,7 @@ import Abmarl.Model.GridSimDriver
 import Abmarl.Model.MemberDriver
 import Abmarl.Model.ExamplesDriver
 import Abmarl.Model.ReachDriver
+import Abmarl.Model.PacmanDriver
 /-! Line-protocol driver: one request per line on stdin, one reply per line on stdout. -/
 open Abmarl
 
@@ -61,8 +62,8 @@ def dispatch (line : String) : String :=
       | "ghist" => GridSimDriver.handleHist args
       | "gwinv" => GridSimDriver.handleWInv args
       | "gmember" => MemberDriver.handle args
-      | "gexample" => ReachDriver.gexample args
-      | "mgrx" => ReachDriver.mgrx args
+      | "gexample" => PacmanDriver.gexample args
+      | "mgrx" => PacmanDriver.mgrx args
       | "ping" => some (.list (.atom "pong" :: args))
       | _ => none
     match r with
